@@ -816,7 +816,8 @@ impl Oracle for Durable {
 fn fs_scenarios(tier: &str, prefix: &'static str, alphabet: Alpha, moving_clock: bool) -> Vec<(String, ScenMaker)> {
     let mut out = Vec::new();
     let quick = tier == "quick";
-    let kinds: &[VolKind] = if quick { &[VolKind::V16a, VolKind::V32a] } else { &[VolKind::V16a, VolKind::V16b, VolKind::V32a, VolKind::V32b] };
+    // V16b has two blocks per cluster and a single FAT: multi-block clusters are where zeroing / range slips show
+    let kinds: &[VolKind] = if quick { &[VolKind::V16a, VolKind::V16b, VolKind::V32a] } else { &[VolKind::V16a, VolKind::V16b, VolKind::V32a, VolKind::V32b] };
     let frees: &[Option<usize>] = if quick { &[None, Some(1)] } else { &[None, Some(3), Some(2), Some(1), Some(0)] };
     for &k in kinds {
         for &fr in frees {
@@ -1122,7 +1123,7 @@ impl Oracle for CrashDurability {
 fn crash_scenarios(tier: &str, prefix: &'static str) -> Vec<(String, ScenMaker)> {
     let mut out = Vec::new();
     let quick = tier == "quick";
-    let kinds: &[VolKind] = if quick { &[VolKind::V16a, VolKind::V32a] } else { &[VolKind::V16a, VolKind::V16b, VolKind::V32a, VolKind::V32b] };
+    let kinds: &[VolKind] = if quick { &[VolKind::V16a, VolKind::V16b, VolKind::V32a] } else { &[VolKind::V16a, VolKind::V16b, VolKind::V32a, VolKind::V32b] };
     for &k in kinds {
         for (fr, sub_free) in [(None, 1usize), (None, 0), (Some(3usize), 0)] {
             if quick && fr.is_some() {
